@@ -18,9 +18,10 @@ func init() {
 			"(3) wherever a transaction leaves the registry (delete from RegistryImpl.transactions, Registry.Remove call sites in the service) the same path has finished it first (Commit/Rollback, possibly deferred or in a spawned rollback); " +
 			"(4) the begin hand-off in RegistryImpl.Begin is an unbuffered rendezvous whose timeout arm rolls the late transaction back; " +
 			"(5) the sweeper marks a transaction stale when age > ttl or idle > idle-ttl (both comparisons present, right operands, right polarity). " +
-			"Added after blind round 4: the lock pairing rule of C07 (every acquisition released or deferred before every reachable return), which covers TransactionImpl.mu on the early-return paths of the transaction's methods.",
+			"Added after blind round 4: the lock pairing rule of C07 (every acquisition released or deferred before every reachable return), which covers TransactionImpl.mu on the early-return paths of the transaction's methods. " +
+			"Added after blind round 7: a connection's tracking entry is deleted only when its set is empty (or by the connection sweep itself).",
 		NotDecided: "timing (when the sweeper runs, the 10 s / 30 s constants), liveness for all call sequences, the begin goroutine's error returns that never reach the caller (reported as info).",
-		Rules:      []func(*Ctx, *Reporter){ruleTxFinishOnce, ruleTxRelease, ruleTxLockWriters, ruleTxOrphanRemoval, ruleTxBeginHandoff, ruleTxStale, ruleLockReleasedOnEveryExit},
+		Rules:      []func(*Ctx, *Reporter){ruleTxFinishOnce, ruleTxRelease, ruleTxLockWriters, ruleTxOrphanRemoval, ruleTxBeginHandoff, ruleTxStale, ruleLockReleasedOnEveryExit, ruleConnTrackingDroppedOnlyWhenEmpty},
 	})
 	register(&PropertyDef{
 		ID: "C04",
@@ -31,9 +32,10 @@ func init() {
 			"(4) Get consults the buffer before storage and goes to storage only on a buffer miss; in NewIterator/NewRangeIterator the buffer iterator is source 0 of the merge and the range scan bounds the buffer iterator with the same bounds as the storage iterator; " +
 			"(5) a finished transaction is inert (C17 rule 1); (6) a successful transactional Put/Delete has buffered exactly that operation; (7) shared with C01/C08: batch entries are stamped with the number the log assigned (a later commit is never shadowed by an older transaction's higher stamp) and an empty value is never turned into a deletion marker on the way into the buffer. " +
 			"Added after blind round 5: the retry wrapper's decision table (exhausted retries report an error). " +
-			"Added after blind round 6: the buffer-view rule of C03; the memtable's snapshot bound nextSeqNum is advanced by Put and Delete alike (cross-listed from C18: a delete-only commit must be visible to later scans).",
+			"Added after blind round 6: the buffer-view rule of C03; the memtable's snapshot bound nextSeqNum is advanced by Put and Delete alike (cross-listed from C18: a delete-only commit must be visible to later scans). " +
+			"Added after blind round 7: every storage access of a transaction's Get/NewIterator/NewRangeIterator happens with TransactionImpl.mu held (Commit/Rollback wait for reads in flight); the scan iterator is built from every memtable and every SSTable it is given (whole-slice walks, no skipped iteration).",
 		NotDecided: "equivalence of all interleavings to a serial order (needs histories); non-transactional writers are excluded by the property itself.",
-		Rules:      []func(*Ctx, *Reporter){ruleTxAcquire, ruleTxRelease, ruleTxLockWriters, ruleTxApplyInside, ruleTxOwnWrites, ruleTxFinishOnce, ruleTxOpsBuffered, ruleStStamps, ruleEmptyNotDeleted, subRules(ruleStEffectOnce, "retry-only-on-rotating"), ruleBufferViewsFollowMap, subRules(ruleMemVisibility, "next-seq-guard")},
+		Rules:      []func(*Ctx, *Reporter){ruleTxAcquire, ruleTxRelease, ruleTxLockWriters, ruleTxApplyInside, ruleTxOwnWrites, ruleTxFinishOnce, ruleTxOpsBuffered, ruleStStamps, ruleEmptyNotDeleted, subRules(ruleStEffectOnce, "retry-only-on-rotating"), ruleBufferViewsFollowMap, subRules(ruleMemVisibility, "next-seq-guard"), ruleTxReadsUnderTxLock, ruleScanSourcesComplete},
 	})
 }
 
